@@ -408,8 +408,64 @@ def part_b(ctx):
             shutil.rmtree(d, ignore_errors=True)
 
 
+def part_local_alleles(ctx):
+    """the store written while the local-allele fields are computed (local_alleles=True) holds, for every field it shares with the
+    plain store of the same file, exactly the same values -- in particular GT with missing / half-missing calls and PL with '.'
+    entries, which the local-allele computation reads --, for one record per chunk as for all records in one chunk"""
+    from bio2zarr import vcf2zarr
+    from bio2zarr.vcf2zarr import icf as icf_mod
+
+    r = ctx.rnd
+    d = os.path.join(ctx.work, "c08la")
+    os.makedirs(d)
+    hdr = ['##contig=<ID=chr1,length=100000>', '##FILTER=<ID=PASS,Description="p">', '##FORMAT=<ID=GT,Number=1,Type=String,Description="g">',
+           '##FORMAT=<ID=PL,Number=G,Type=Integer,Description="pl">', '##FORMAT=<ID=DP,Number=1,Type=Integer,Description="d">']
+    try:
+        for i in range(ctx.n(2, 12)):
+            ns = r.randint(2, 4)
+            recs = []
+            for k in range(r.randint(3, 9)):
+                nalt = r.randint(1, 3)
+                npl = (nalt + 1) * (nalt + 2) // 2
+                cols = []
+                for _ in range(ns):
+                    gt = [r.choice([None, 0, r.randint(0, nalt), r.randint(0, nalt)]) for _ in range(2)]
+                    g = r.choice("/|").join("." if x is None else str(x) for x in gt)
+                    pl = "." if r.random() < 0.15 else ",".join("." if r.random() < 0.2 else str(r.randint(0, 255)) for _ in range(npl))
+                    cols.append(f"{g}:{pl}:{r.randint(0, 50)}")
+                alts = ",".join("CGT"[j] * (j + 1) for j in range(nalt))
+                recs.append(f"chr1\t{10 + 10 * k}\t.\tA\t{alts}\t.\tPASS\t.\tGT:PL:DP\t" + "\t".join(cols))
+            p = vcfgen.make_indexed(d, f"la{i}", vcfgen.vcf_text(hdr, recs, [f"s{j}" for j in range(ns)]), kind="tbi")
+            plain = os.path.join(d, "plain.icf")
+            shutil.rmtree(plain, ignore_errors=True)
+            vcf2zarr.explode(plain, [p], worker_processes=0)
+            ref = icf_mod.IntermediateColumnarFormat(plain)
+            ref_dump = field_dump(ref)
+            for ccs in (16, 1e-6):
+                out = os.path.join(d, "la.icf")
+                shutil.rmtree(out, ignore_errors=True)
+                doc = dict(part="e2e", special="local alleles computed while exploding", records=[x.split("\t", 8)[8] for x in recs][:4], column_chunk_size=ccs)
+                ctx.case(doc, nontrivial=True)
+                ctx.count("e2e-local-alleles")
+                try:
+                    vcf2zarr.explode(out, [p], worker_processes=0, local_alleles=True, column_chunk_size=ccs)
+                    st = icf_mod.IntermediateColumnarFormat(out)
+                    dump = field_dump(st)
+                except Exception as e:  # noqa: BLE001
+                    ctx.fail(doc, dict(error=f"{type(e).__name__}: {e}"[:300]), "exploding with local alleles raised")
+                    continue
+                bad = [k for k in ref_dump if dump.get(k) != ref_dump[k]]
+                if bad:
+                    ctx.fail(dict(doc, fields=bad[:4]), {}, f"stored columns {bad[:4]} change when the local-allele fields are computed")
+                source_check(ctx, doc, p, st, dump)
+                summary_check(ctx, doc, st)
+    finally:
+        shutil.rmtree(d, ignore_errors=True)
+
+
 def run(ctx):
     part_a(ctx)
+    part_local_alleles(ctx)
     part_b(ctx)
 
 
